@@ -1,5 +1,4 @@
 import StepModel.P21.Writer
-import StepModel.Generated.P21LexGen
 import StepModel.Generated.P21RWGen
 /-! Line-protocol driver for the Part 21 reader/writer model (`P21.Reader`, `P21.Writer`); used by checks/c01.py and
 checks/c03.py.  One request per line, one reply per line.
@@ -58,7 +57,7 @@ def addAttr (d : Dict) (a : AttrD) : Option Dict :=
   | e :: es => some { d with entities := (({ e with attrs := e.attrs ++ [a] }) :: es).reverse }
   | [] => none
 
-def lexCfg : LexCfg := StepModel.Generated.lexCfg
+def lexCfg : LexCfg := StepModel.Generated.rwLexCfg
 def rwCfg : RWCfg := StepModel.Generated.rwCfg
 
 def showCfg : String :=
